@@ -562,7 +562,7 @@ def strategies():
         from .. import world as W
         W.install()
         ev = start_event(W)
-        how = draw(st.sampled_from(["arbitrary", "arbitrary", "not-json", "not-utf8", "drop", "drop", "replace", "replace", "unknown-machine", "unknown-state", "mid-state"]))
+        how = draw(st.sampled_from(["arbitrary", "arbitrary", "not-json", "not-utf8", "drop", "drop", "replace", "replace", "unknown-machine", "unknown-state", "mid-state", "map-reentry-marker"]))
         if how == "arbitrary":
             ev = draw(any_json)
         elif how == "not-json":
@@ -589,6 +589,16 @@ def strategies():
             ev["context"]["StateMachine"]["Id"] = W.sm_arn("nosuch")
         elif how == "unknown-state":
             ev["context"]["State"]["Name"] = "Nowhere"
+        elif how == "map-reentry-marker":
+            # an event that re-enters a Map state for its next MaxConcurrency block, with a marker the engine cannot read (the definition travels in the event)
+            ev["context"]["StateMachine"]["Definition"] = {"StartAt": "M", "States": {"M": {"Type": "Map", "ItemsPath": "$.items", "MaxConcurrency": 1, "End": True,
+                                                           "Iterator": {"StartAt": "P", "States": {"P": {"Type": "Pass", "End": True}}}}}}
+            ev["context"]["StateMachine"]["Id"] = W.sm_arn("byvalue")       # (a definition in an event replaces the stored one of that ARN)
+            ev["context"]["StateMachine"]["Name"] = "byvalue"
+            ev["context"]["Execution"]["Id"] = "arn:aws:states:local:0123456789:execution:byvalue:raw1"
+            ev["data"] = {"items": [1, 2, 3]}
+            ev["context"]["State"]["Name"] = "M"
+            ev["context"]["State"]["Branch"] = [{"Parent": "M", "ID": "x", "Range": draw(st.sampled_from(["a:b", "1", "", ":", "1:x", 5, None, [1, 2], "-1:2", "1:99"]))}]
         elif how == "mid-state":
             ev["context"]["State"]["Name"] = draw(st.sampled_from(["B", "C"]))
             ev["context"]["State"]["Branch"] = draw(st.sampled_from([[], [{"ID": "x"}], "str", [{"Index": 0, "Parent": "A", "ID": "y", "Input": {}}], None]))
